@@ -330,7 +330,11 @@ def join(a: AVal, b: AVal) -> AVal:
         else:
             kind = a.kind
         if a.axes != b.axes:
-            return Unk(f"join of axes {a.axes}/{b.axes}")
+            if "?" in a.axes and "?" in b.axes:
+                ax = ("R", "?") if len(a.axes) >= 2 and len(b.axes) >= 2 else ("?",)
+                a, b = replace(a, axes=ax), replace(b, axes=ax)
+            else:
+                return Unk(f"join of axes {a.axes}/{b.axes}")
         return TV(
             kind=kind, axes=a.axes, p=a.p and b.p, q=a.q and b.q, s=a.s and b.s, z=a.z and b.z,
             span=a.span and b.span, deg=join_deg(a.deg, b.deg), dtype=_join_dtype(a.dtype, b.dtype),
@@ -348,12 +352,31 @@ def join(a: AVal, b: AVal) -> AVal:
             return join(ta, tb)
         return Unk(f"join of constants {a.v!r}/{b.v!r}")
     if isinstance(a, ListV) and isinstance(b, ListV):
+        if a.items is not None and len(a.items) == 0 and b.items is None:
+            return b
+        if b.items is not None and len(b.items) == 0 and a.items is None:
+            return a
         if a.items is not None and b.items is not None and len(a.items) == len(b.items):
             return replace(a, items=tuple(join(x, y) for x, y in zip(a.items, b.items)))
         ea = a.elem if a.items is None else _join_all(a.items)
         eb = b.elem if b.items is None else _join_all(b.items)
         return ListV(items=None, elem=join(ea, eb) if ea is not None and eb is not None else (ea or eb), kind=a.kind,
                      over=a.over if a.over == b.over else None, order=a.order if a.order == b.order else None)
+    if isinstance(a, DictV) and isinstance(b, DictV):
+        if a.items is not None and len(a.items) == 0:
+            return b
+        if b.items is not None and len(b.items) == 0:
+            return a
+        if a.items is None and b.items is None:
+            return DictV(items=None, keys=join(a.keys, b.keys), val=join(a.val, b.val), ordered=a.ordered and b.ordered)
+    if isinstance(a, SetV) and isinstance(b, SetV):
+        if a.items is not None and len(a.items) == 0 and b.items is None:
+            return b
+        if b.items is not None and len(b.items) == 0 and a.items is None:
+            return a
+        ea = a.elem if a.items is None else _join_all(a.items)
+        eb = b.elem if b.items is None else _join_all(b.items)
+        return SetV(items=None, elem=join(ea, eb) if ea is not None and eb is not None else (ea or eb), atoms=a.atoms | b.atoms)
     return Unk(f"join of {type(a).__name__}/{type(b).__name__}")
 
 
